@@ -1,7 +1,9 @@
 package main
 
 import (
+	"fmt"
 	"go/types"
+	"os"
 	"sort"
 	"strings"
 
@@ -11,20 +13,24 @@ import (
 // Private allocations.
 //
 // An opaque call (a callee without contract that cannot be inlined, or `modifies anything`) havocs the whole heap. That
-// is needlessly weak for objects the callee cannot possibly reach: the cells of escaped locals (variables captured by a
-// deferred closure, named results, `var sb strings.Builder` whose address is taken) and objects built with &T{...}
-// that the function has not yet handed to anybody. privateAllocs computes, for a function together with its closures,
-// the heap Allocs whose address never leaves the function family:
+// is needlessly weak for memory the callee cannot possibly reach: the cells of escaped locals (variables captured by a
+// deferred closure, named results, `var sb strings.Builder` whose address is taken), objects built with &T{...} or by
+// a small constructor (geo.NewPoint), local slices (make / append) and local maps that the function has not yet handed
+// to anybody. computePrivate determines, for a function together with its closures, the ALLOCATION SITES whose
+// memory never leaves the function family:
 //
-//	field- and flow-insensitive points-to over the family's SSA; an Alloc is LEAKED when a value that may point to it
-//	is stored somewhere that is not itself a private Alloc, passed to a call that is not (a) a closure of the family
-//	called directly, (b) a builtin, (c) a pure function, or (d) a library (non-module) function with an extern contract,
-//	converted to an interface, sent, used as a map key/value, returned from a closure, bound into a closure that
-//	escapes, or used by any instruction the analysis does not know. Everything stored in a leaked Alloc is leaked too.
+//	sites: heap Allocs, MakeSlice, MakeMap, append (may allocate a new array), calls of module constructors that
+//	return a private Alloc of their own. A field- and flow-insensitive points-to analysis over the family's SSA tracks
+//	which values may point into which sites and what is stored in them. A site is LEAKED when a value that may point
+//	to it is stored through an address that is not definitely private, passed to a call that is not (a) a closure of
+//	the family called directly, (b) a builtin, (c) a pure function, or (d) a library (non-module) function with an
+//	extern contract; converted to an interface, sent, returned from a closure, bound into a closure that escapes, or
+//	used by any instruction the analysis does not know. Everything stored in a leaked site is leaked too.
 //
-// havocAll keeps the content of the private Allocs of the activations on the current call chain.
+// havocAll keeps the memory behind every SSA value of the activations on the current call chain that definitely points
+// only into private sites.
 type privInfo struct {
-	private map[*ssa.Alloc]bool
+	vals map[ssa.Value]bool // values that definitely point only into private sites
 }
 
 func familyRoot(fn *ssa.Function) *ssa.Function {
@@ -47,45 +53,148 @@ func familyFuncs(root *ssa.Function) []*ssa.Function {
 	return out
 }
 
-func (e *Engine) privateAllocs(fn *ssa.Function) map[*ssa.Alloc]bool {
+func (e *Engine) privateVals(fn *ssa.Function) map[ssa.Value]bool {
 	root := familyRoot(fn)
 	if e.privCache == nil {
 		e.privCache = map[*ssa.Function]*privInfo{}
 	}
 	if pi, ok := e.privCache[root]; ok {
-		return pi.private
+		if pi == nil {
+			return nil // in progress (recursive constructor summary)
+		}
+		return pi.vals
 	}
-	pi := &privInfo{private: e.computePrivate(root)}
+	e.privCache[root] = nil
+	pi := &privInfo{vals: e.computePrivate(root)}
 	e.privCache[root] = pi
-	return pi.private
+	if os.Getenv("D2VC_DEBUG_PRIV") != "" {
+		var names []string
+		for v := range pi.vals {
+			names = append(names, v.Name()+":"+v.String())
+		}
+		sort.Strings(names)
+		fmt.Fprintf(os.Stderr, "private values of %s: %s\n", calleeName(root), strings.Join(names, "; "))
+	}
+	return pi.vals
 }
 
-type allocSet map[*ssa.Alloc]bool
+type siteSet map[ssa.Value]bool
 
-func (e *Engine) computePrivate(root *ssa.Function) map[*ssa.Alloc]bool {
+// isConstructor: fn is a small loop-free module function every result of which is a private heap Alloc of its own
+// (geo.NewPoint, geo.NewBox ...): a call of it is an allocation site of the caller.
+func (e *Engine) isConstructor(fn *ssa.Function) bool {
+	if fn == nil || fn.Parent() != nil || fn.Signature.Results().Len() != 1 {
+		return false
+	}
+	if v, ok := e.ctorCache[fn]; ok {
+		return v
+	}
+	if e.ctorCache == nil {
+		e.ctorCache = map[*ssa.Function]bool{}
+	}
+	e.ctorCache[fn] = false
+	pkgPath := ""
+	if fn.Pkg != nil {
+		pkgPath = fn.Pkg.Pkg.Path()
+	}
+	if !strings.HasPrefix(pkgPath, "oss.terrastruct.com/") || e.specOf(fn) != nil {
+		return false
+	}
+	if _, ok := fn.Signature.Results().At(0).Type().Underlying().(*types.Pointer); !ok {
+		return false
+	}
+	e.ensureBuilt(fn)
+	if len(fn.Blocks) == 0 {
+		return false
+	}
+	n := 0
+	for _, b := range fn.Blocks {
+		n += len(b.Instrs)
+		for _, s := range b.Succs {
+			if s.Dominates(b) {
+				return false
+			}
+		}
+	}
+	if n > 120 {
+		return false
+	}
+	pv := e.privateVals(fn)
+	ok := false
+	for _, b := range fn.Blocks {
+		for _, in := range b.Instrs {
+			if r, isRet := in.(*ssa.Return); isRet {
+				if len(r.Results) != 1 {
+					return false
+				}
+				// (NaiveForm returns a load of the result variable, not the Alloc itself) the returned pointer definitely
+				// points into memory allocated by this call that nothing else can reach
+				if !pv[r.Results[0]] {
+					return false
+				}
+				ok = true
+			}
+		}
+	}
+	e.ctorCache[fn] = ok
+	return ok
+}
+
+func staticCallee(cc *ssa.CallCommon) *ssa.Function {
+	switch cv := cc.Value.(type) {
+	case *ssa.MakeClosure:
+		f, _ := cv.Fn.(*ssa.Function)
+		return f
+	case *ssa.Function:
+		return cv
+	}
+	return nil
+}
+
+func (e *Engine) computePrivate(root *ssa.Function) map[ssa.Value]bool {
 	fns := familyFuncs(root)
 	inFamily := map[*ssa.Function]bool{}
 	for _, f := range fns {
 		e.ensureBuilt(f)
 		inFamily[f] = true
 	}
-	cand := allocSet{}
+	isAppend := func(in ssa.Instruction) (*ssa.Call, bool) {
+		c, ok := in.(*ssa.Call)
+		if !ok {
+			return nil, false
+		}
+		b, ok := c.Call.Value.(*ssa.Builtin)
+		return c, ok && b.Name() == "append"
+	}
+	sites := siteSet{}
 	for _, f := range fns {
 		for _, b := range f.Blocks {
 			for _, in := range b.Instrs {
-				if al, ok := in.(*ssa.Alloc); ok && al.Heap {
-					cand[al] = true
+				switch x := in.(type) {
+				case *ssa.Alloc:
+					// stack-allocated locals are cells too (what is stored in them flows to their loads); their own
+					// memory is not in the heap model, so only the heap ones matter to keepPrivate
+					sites[x] = true
+				case *ssa.MakeSlice:
+					sites[x] = true
+				case *ssa.MakeMap:
+					sites[x] = true
+				case *ssa.Call:
+					if _, ok := isAppend(in); ok {
+						sites[x] = true
+					} else if cf := staticCallee(&x.Call); cf != nil && !inFamily[cf] && e.isConstructor(cf) {
+						sites[x] = true
+					}
 				}
 			}
 		}
 	}
-	if len(cand) == 0 {
-		return cand
+	if len(sites) == 0 {
+		return nil
 	}
-	// points-to sets of SSA values (only candidates are tracked) and contents of candidates
-	pts := map[ssa.Value]allocSet{}
-	contents := map[*ssa.Alloc]allocSet{}
-	addAll := func(dst allocSet, src allocSet) bool {
+	pts := map[ssa.Value]siteSet{}
+	contents := map[ssa.Value]siteSet{}
+	addAll := func(dst siteSet, src siteSet) bool {
 		ch := false
 		for a := range src {
 			if !dst[a] {
@@ -95,27 +204,51 @@ func (e *Engine) computePrivate(root *ssa.Function) map[*ssa.Alloc]bool {
 		}
 		return ch
 	}
-	get := func(v ssa.Value) allocSet {
+	get := func(v ssa.Value) siteSet {
 		if v == nil {
 			return nil
 		}
-		if al, ok := v.(*ssa.Alloc); ok && cand[al] {
-			return allocSet{al: true}
+		if sites[v] {
+			if s := pts[v]; s != nil {
+				return s
+			}
+			s := siteSet{v: true}
+			pts[v] = s
+			return s
 		}
 		return pts[v]
 	}
-	flow := func(dst ssa.Value, src allocSet) bool {
+	flow := func(dst ssa.Value, src siteSet) bool {
 		if len(src) == 0 {
 			return false
 		}
 		s := pts[dst]
 		if s == nil {
-			s = allocSet{}
+			s = siteSet{}
+			if sites[dst] {
+				s[dst] = true
+			}
 			pts[dst] = s
 		}
 		return addAll(s, src)
 	}
-	// closure creation sites: FreeVars <- Bindings; direct calls of closures: Params <- Args
+	store := func(addrSites siteSet, vs siteSet) bool {
+		ch := false
+		if len(vs) == 0 {
+			return false
+		}
+		for a := range addrSites {
+			c := contents[a]
+			if c == nil {
+				c = siteSet{}
+				contents[a] = c
+			}
+			if addAll(c, vs) {
+				ch = true
+			}
+		}
+		return ch
+	}
 	for changed := true; changed; {
 		changed = false
 		for _, f := range fns {
@@ -131,19 +264,15 @@ func (e *Engine) computePrivate(root *ssa.Function) map[*ssa.Alloc]bool {
 							}
 						}
 					case *ssa.Store:
-						vs := get(x.Val)
-						if len(vs) == 0 {
-							break
+						if store(get(x.Addr), get(x.Val)) {
+							changed = true
 						}
-						for a := range get(x.Addr) {
-							c := contents[a]
-							if c == nil {
-								c = allocSet{}
-								contents[a] = c
-							}
-							if addAll(c, vs) {
-								changed = true
-							}
+					case *ssa.MapUpdate:
+						if store(get(x.Map), get(x.Value)) {
+							changed = true
+						}
+						if store(get(x.Map), get(x.Key)) {
+							changed = true
 						}
 					case *ssa.UnOp:
 						if x.Op.String() == "*" {
@@ -151,6 +280,22 @@ func (e *Engine) computePrivate(root *ssa.Function) map[*ssa.Alloc]bool {
 								if flow(x, contents[a]) {
 									changed = true
 								}
+							}
+						}
+					case *ssa.Lookup:
+						for a := range get(x.X) {
+							if flow(x, contents[a]) {
+								changed = true
+							}
+						}
+					case *ssa.Range:
+						if flow(x, get(x.X)) {
+							changed = true
+						}
+					case *ssa.Next:
+						for a := range get(x.Iter) {
+							if flow(x, contents[a]) {
+								changed = true
 							}
 						}
 					case *ssa.FieldAddr:
@@ -198,24 +343,40 @@ func (e *Engine) computePrivate(root *ssa.Function) map[*ssa.Alloc]bool {
 						}
 						if bi, ok := cc.Value.(*ssa.Builtin); ok {
 							if bi.Name() == "append" {
-								if v, ok := in.(ssa.Value); ok {
-									for _, a := range cc.Args {
-										if flow(v, get(a)) {
+								if v, ok := in.(ssa.Value); ok && len(cc.Args) > 0 {
+									// the result shares arg0's array or is the new one (the site itself); appended
+									// values are stored into both
+									if flow(v, get(cc.Args[0])) {
+										changed = true
+									}
+									for _, a := range cc.Args[1:] {
+										vs := get(a)
+										// append(s, t...): the elements of t, i.e. what t's sites contain
+										if _, isSlice := a.Type().Underlying().(*types.Slice); isSlice && cc.Signature().Variadic() {
+											el := siteSet{}
+											for ts := range vs {
+												addAll(el, contents[ts])
+											}
+											vs = el
+										}
+										if store(get(v), vs) {
 											changed = true
 										}
 									}
 								}
 							}
+							if bi.Name() == "copy" && len(cc.Args) == 2 {
+								el := siteSet{}
+								for ts := range get(cc.Args[1]) {
+									addAll(el, contents[ts])
+								}
+								if store(get(cc.Args[0]), el) {
+									changed = true
+								}
+							}
 							break
 						}
-						// direct call of a family closure (a MakeClosure value or the function itself)
-						var cf *ssa.Function
-						switch cv := cc.Value.(type) {
-						case *ssa.MakeClosure:
-							cf, _ = cv.Fn.(*ssa.Function)
-						case *ssa.Function:
-							cf = cv
-						}
+						cf := staticCallee(cc)
 						if cf != nil && inFamily[cf] && cf != root {
 							for i, a := range cc.Args {
 								if i < len(cf.Params) && flow(cf.Params[i], get(a)) {
@@ -228,9 +389,8 @@ func (e *Engine) computePrivate(root *ssa.Function) map[*ssa.Alloc]bool {
 			}
 		}
 	}
-	// definite(v): v certainly holds nil or (an address inside) a candidate, never a pointer the analysis does not
-	// track. A store of a tracked pointer through an address that is not definite may land anywhere: leak.
-	storesInto := map[*ssa.Alloc][]*ssa.Store{}
+	// definite(v): v certainly holds nil or (an address inside) a site, never a pointer the analysis does not track.
+	storesInto := map[ssa.Value][]ssa.Value{} // site -> values stored into it
 	closureSites := map[*ssa.Function][]*ssa.MakeClosure{}
 	for _, f := range fns {
 		for _, b := range f.Blocks {
@@ -238,11 +398,23 @@ func (e *Engine) computePrivate(root *ssa.Function) map[*ssa.Alloc]bool {
 				switch x := in.(type) {
 				case *ssa.Store:
 					for a := range get(x.Addr) {
-						storesInto[a] = append(storesInto[a], x)
+						storesInto[a] = append(storesInto[a], x.Val)
+					}
+				case *ssa.MapUpdate:
+					for a := range get(x.Map) {
+						storesInto[a] = append(storesInto[a], x.Value, x.Key)
 					}
 				case *ssa.MakeClosure:
 					if cf, ok := x.Fn.(*ssa.Function); ok {
 						closureSites[cf] = append(closureSites[cf], x)
+					}
+				case *ssa.Call:
+					if c, ok := isAppend(in); ok {
+						for a := range get(c) {
+							// appended values (for t... the elements of t are covered by t's own sites being tracked;
+							// an untracked t makes the array indefinite)
+							storesInto[a] = append(storesInto[a], c.Call.Args[1:]...)
+						}
 					}
 				}
 			}
@@ -250,9 +422,9 @@ func (e *Engine) computePrivate(root *ssa.Function) map[*ssa.Alloc]bool {
 	}
 	defMemo := map[ssa.Value]int{} // 1 in progress / true, 2 false
 	var definite func(v ssa.Value) bool
-	cellDefinite := func(a *ssa.Alloc) bool {
-		for _, s := range storesInto[a] {
-			if pointerLike(s.Val.Type()) && !definite(s.Val) {
+	cellDefinite := func(a ssa.Value) bool {
+		for _, sv := range storesInto[a] {
+			if pointerLike(sv.Type()) && !definite(sv) {
 				return false
 			}
 		}
@@ -266,12 +438,22 @@ func (e *Engine) computePrivate(root *ssa.Function) map[*ssa.Alloc]bool {
 		r := false
 		switch x := v.(type) {
 		case *ssa.Alloc:
-			r = cand[x]
+			r = sites[x]
+		case *ssa.MakeSlice, *ssa.MakeMap:
+			r = true
 		case *ssa.Const:
 			r = true
+		case *ssa.Call:
+			if c, ok := isAppend(x); ok {
+				r = len(c.Call.Args) > 0 && definite(c.Call.Args[0])
+			} else {
+				r = sites[x]
+			}
 		case *ssa.FieldAddr:
 			r = definite(x.X)
 		case *ssa.IndexAddr:
+			r = definite(x.X)
+		case *ssa.Slice:
 			r = definite(x.X)
 		case *ssa.ChangeType:
 			r = definite(x.X)
@@ -299,9 +481,9 @@ func (e *Engine) computePrivate(root *ssa.Function) map[*ssa.Alloc]bool {
 					idx = i
 				}
 			}
-			sites := closureSites[cf]
-			r = idx >= 0 && len(sites) > 0
-			for _, mc := range sites {
+			scs := closureSites[cf]
+			r = idx >= 0 && len(scs) > 0
+			for _, mc := range scs {
 				if idx < 0 || idx >= len(mc.Bindings) || !definite(mc.Bindings[idx]) {
 					r = false
 				}
@@ -314,8 +496,8 @@ func (e *Engine) computePrivate(root *ssa.Function) map[*ssa.Alloc]bool {
 		}
 		return r
 	}
-	leaked := allocSet{}
-	leak := func(s allocSet) {
+	leaked := siteSet{}
+	leak := func(s siteSet) {
 		for a := range s {
 			leaked[a] = true
 		}
@@ -328,8 +510,8 @@ func (e *Engine) computePrivate(root *ssa.Function) map[*ssa.Alloc]bool {
 		for _, r := range *refs {
 			switch u := r.(type) {
 			case ssa.CallInstruction:
-				if u.Common().Value != mc {
-					return true // passed as an argument
+				if _, isGo := u.(*ssa.Go); isGo || u.Common().Value != mc {
+					return true
 				}
 				for _, a := range u.Common().Args {
 					if a == mc {
@@ -356,19 +538,16 @@ func (e *Engine) computePrivate(root *ssa.Function) map[*ssa.Alloc]bool {
 				switch x := in.(type) {
 				case *ssa.Alloc, *ssa.FieldAddr, *ssa.IndexAddr, *ssa.Field, *ssa.Index, *ssa.Slice, *ssa.Phi, *ssa.ChangeType,
 					*ssa.Convert, *ssa.Extract, *ssa.DebugRef, *ssa.If, *ssa.Jump, *ssa.RunDefers, *ssa.BinOp, *ssa.Range, *ssa.Next,
-					*ssa.MakeSlice, *ssa.MakeMap, *ssa.Lookup, *ssa.Panic:
-					// address arithmetic, comparisons, control flow: no leak by themselves (Lookup/Next results are untracked)
-					if lk, ok := in.(*ssa.Lookup); ok {
-						leak(get(lk.Index))
-					}
-				case *ssa.UnOp:
+					*ssa.MakeSlice, *ssa.MakeMap, *ssa.Lookup, *ssa.Panic, *ssa.UnOp:
+					// address arithmetic, loads, comparisons, control flow: no leak by themselves
 				case *ssa.Store:
-					vs := get(x.Val)
-					if len(vs) == 0 {
-						break
-					}
-					if !definite(x.Addr) {
+					if vs := get(x.Val); len(vs) > 0 && !definite(x.Addr) {
 						leak(vs) // stored through a pointer that may lead anywhere
+					}
+				case *ssa.MapUpdate:
+					if !definite(x.Map) {
+						leak(get(x.Value))
+						leak(get(x.Key))
 					}
 				case *ssa.MakeClosure:
 					cf, ok := x.Fn.(*ssa.Function)
@@ -410,20 +589,32 @@ func (e *Engine) computePrivate(root *ssa.Function) map[*ssa.Alloc]bool {
 						}
 						break
 					}
-					if _, ok := cc.Value.(*ssa.Builtin); ok {
+					if bi, ok := cc.Value.(*ssa.Builtin); ok {
+						if bi.Name() == "append" && len(cc.Args) > 0 {
+							if v, ok := in.(ssa.Value); ok && !definite(v) {
+								// appending into an array we know nothing about
+								for _, a := range cc.Args[1:] {
+									leak(get(a))
+								}
+							}
+						}
 						break
 					}
-					var cf *ssa.Function
-					switch cv := cc.Value.(type) {
-					case *ssa.MakeClosure:
-						cf, _ = cv.Fn.(*ssa.Function)
-					case *ssa.Function:
-						cf = cv
-					}
+					cf := staticCallee(cc)
 					if cf != nil && inFamily[cf] && cf != root {
 						break // arguments flow into the closure's parameters (handled above)
 					}
-					if cf != nil && e.calleeKeepsNothing(cf) {
+					if cf != nil && (e.calleeKeepsNothing(cf) || e.isConstructor(cf)) {
+						if e.isConstructor(cf) {
+							// a constructor stores its arguments in the object it returns
+							if v, ok := in.(ssa.Value); ok {
+								for _, a := range cc.Args {
+									if vs := get(a); len(vs) > 0 {
+										store(get(v), vs)
+									}
+								}
+							}
+						}
 						break
 					}
 					leak(get(cc.Value))
@@ -431,7 +622,7 @@ func (e *Engine) computePrivate(root *ssa.Function) map[*ssa.Alloc]bool {
 						leak(get(a))
 					}
 				default:
-					// MakeInterface, MapUpdate, Send, TypeAssert, ChangeInterface, Select, Go, ...: every operand leaks
+					// MakeInterface, Send, TypeAssert, ChangeInterface, Select, ...: every operand leaks
 					for _, op := range in.Operands(nil) {
 						if op != nil && *op != nil {
 							leak(get(*op))
@@ -441,7 +632,7 @@ func (e *Engine) computePrivate(root *ssa.Function) map[*ssa.Alloc]bool {
 			}
 		}
 	}
-	// stores into leaked objects leak the stored values; contents of leaked objects are leaked
+	// contents of leaked sites are leaked
 	for changed := true; changed; {
 		changed = false
 		for a := range leaked {
@@ -453,13 +644,38 @@ func (e *Engine) computePrivate(root *ssa.Function) map[*ssa.Alloc]bool {
 			}
 		}
 	}
-	priv := allocSet{}
-	for a := range cand {
-		if !leaked[a] {
-			priv[a] = true
+	out := map[ssa.Value]bool{}
+	consider := func(v ssa.Value) {
+		s := get(v)
+		if len(s) == 0 || !definite(v) {
+			return
+		}
+		for a := range s {
+			if leaked[a] {
+				return
+			}
+		}
+		switch v.Type().Underlying().(type) {
+		case *types.Pointer, *types.Slice, *types.Map:
+			out[v] = true
 		}
 	}
-	return priv
+	for _, f := range fns {
+		for _, p := range f.Params {
+			consider(p)
+		}
+		for _, fv := range f.FreeVars {
+			consider(fv)
+		}
+		for _, b := range f.Blocks {
+			for _, in := range b.Instrs {
+				if v, ok := in.(ssa.Value); ok {
+					consider(v)
+				}
+			}
+		}
+	}
+	return out
 }
 
 // localOnlyCalled: every use of the local variable al is a store into it, or a load whose value is only used as the
@@ -568,73 +784,98 @@ func (e *Engine) calleeKeepsNothing(fn *ssa.Function) bool {
 	return false
 }
 
-// keepPrivate is called by havocAll with the heap as it was before the havoc: the content of every private Alloc of
-// an activation on the call chain is the same afterwards.
+// keepPrivate is called by havocAll with the heap as it was before the havoc: the memory behind every private value
+// of an activation on the call chain is the same afterwards.
 func (a *act) keepPrivate(st *State, oldHeap map[string]Term, oldEpoch string) {
 	e := a.e
 	log := e.cur.log
-	seen := map[*ssa.Alloc]bool{}
+	old := func(name string, srt Sort) Term {
+		if t, ok := oldHeap[name]; ok {
+			return t
+		}
+		return log.declConst(name+"@"+oldEpoch, srt)
+	}
+	done := map[string]bool{}
+	keep := func(name string, srt Sort, r Term) {
+		k := name + "|" + r.S
+		if done[k] || isLiteralTerm(r) {
+			return
+		}
+		done[k] = true
+		log.assert(eq(sel(e.heapGet(st, name, srt), r), sel(old(name, srt), r)))
+	}
 	for p := a; p != nil; p = p.caller {
 		if p.fn == nil {
 			continue
 		}
-		priv := e.privateAllocs(p.fn)
+		priv := e.privateVals(p.fn)
 		if len(priv) == 0 {
 			continue
 		}
-		var als []*ssa.Alloc
+		var vs []ssa.Value
 		for v := range p.vals {
-			if al, ok := v.(*ssa.Alloc); ok && priv[al] && !seen[al] {
-				als = append(als, al)
+			if priv[v] {
+				vs = append(vs, v)
 			}
 		}
-		sort.Slice(als, func(i, j int) bool { return als[i].Pos() < als[j].Pos() || (als[i].Pos() == als[j].Pos() && als[i].Name() < als[j].Name()) })
-		for _, al := range als {
-			seen[al] = true
-			pv := p.vals[al]
-			if len(pv.T) != 1 {
+		sort.Slice(vs, func(i, j int) bool {
+			if vs[i].Pos() != vs[j].Pos() {
+				return vs[i].Pos() < vs[j].Pos()
+			}
+			return vs[i].Name() < vs[j].Name()
+		})
+		for _, v := range vs {
+			pv := p.vals[v]
+			if len(pv.T) == 0 || pv.T[0].S == "" {
 				continue
 			}
 			r := pv.T[0]
-			et := al.Type().(*types.Pointer).Elem()
-			old := func(name string, srt Sort) Term {
-				if t, ok := oldHeap[name]; ok {
-					return t
+			switch t := v.Type().Underlying().(type) {
+			case *types.Slice:
+				for _, l := range e.layout(t.Elem()) {
+					keep(elemHeapName(t.Elem(), l.Path), arrSort(SInt, arrSort(SInt, l.Sort)), r)
 				}
-				return log.declConst(name+"@"+oldEpoch, srt)
-			}
-			if at, ok := et.Underlying().(*types.Array); ok {
-				for _, l := range e.layout(at.Elem()) {
-					name := elemHeapName(at.Elem(), l.Path)
-					srt := arrSort(SInt, arrSort(SInt, l.Sort))
-					log.assert(eq(sel(e.heapGet(st, name, srt), r), sel(old(name, srt), r)))
+			case *types.Map:
+				if mh := e.mapHeaps(t); mh != nil {
+					keep(mh.dom, mh.domSort, r)
+					for i, n := range mh.val {
+						keep(n, mh.valSort[i], r)
+					}
 				}
-				continue
-			}
-			for _, l := range e.layout(et) {
-				name := objHeapName(et, l.Path)
-				srt := arrSort(SInt, l.Sort)
-				log.assert(eq(sel(e.heapGet(st, name, srt), r), sel(old(name, srt), r)))
-			}
-			for _, sfName := range sortedKeys(e.specFuncs) {
-				sf := e.specFuncs[sfName]
-				if !sf.Ghost || len(sf.Params) != 1 {
+			case *types.Pointer:
+				if len(pv.T) != 1 {
+					continue // an interior-pointer descriptor
+				}
+				et := t.Elem()
+				if at, ok := et.Underlying().(*types.Array); ok {
+					for _, l := range e.layout(at.Elem()) {
+						keep(elemHeapName(at.Elem(), l.Path), arrSort(SInt, arrSort(SInt, l.Sort)), r)
+					}
 					continue
 				}
-				srt, ok := e.cur.heapSorts["G_"+sf.Name]
-				if !ok {
-					continue
+				for _, l := range e.layout(et) {
+					keep(objHeapName(et, l.Path), arrSort(SInt, l.Sort), r)
 				}
-				env := e.newEnv(a, st)
-				pt, err := env.parseType(sf.Params[0].Type)
-				if err != nil {
-					continue
+				for _, sfName := range sortedKeys(e.specFuncs) {
+					sf := e.specFuncs[sfName]
+					if !sf.Ghost || len(sf.Params) != 1 {
+						continue
+					}
+					srt, ok := e.cur.heapSorts["G_"+sf.Name]
+					if !ok {
+						continue
+					}
+					env := e.newEnv(a, st)
+					pt, err := env.parseType(sf.Params[0].Type)
+					if err != nil {
+						continue
+					}
+					pp, ok := pt.Underlying().(*types.Pointer)
+					if !ok || typeKey(pp.Elem()) != typeKey(et) {
+						continue
+					}
+					keep("G_"+sf.Name, srt, r)
 				}
-				pp, ok := pt.Underlying().(*types.Pointer)
-				if !ok || typeKey(pp.Elem()) != typeKey(et) {
-					continue
-				}
-				log.assert(eq(sel(e.heapGet(st, "G_"+sf.Name, srt), r), sel(old("G_"+sf.Name, srt), r)))
 			}
 		}
 	}
